@@ -517,6 +517,7 @@ func (f *frame) runLoop(li *loopInfo, order []*ssa.BasicBlock) {
 		heap1 = c.newEpoch()
 		old := c.nalloc(be.heap)
 		c.assume(implies(be.reach, ge(c.nalloc(heap1), old)))
+		c.keepGhost(be.heap, heap1, dc.writes)
 	} else {
 		heap1 = be.heap.clone()
 		var ws []string
